@@ -572,8 +572,8 @@ func rawPart(r *core.Run, rnd *rand.Rand, i int, w *world, srv *core.Srv, wit fu
 		}
 	}
 	type variant struct {
-		name      string
-		a         g11lib.RawAttempt
+		name       string
+		a          g11lib.RawAttempt
 		wellFormed bool // a correct proof of the password in a well-formed packet: must be accepted
 	}
 	nat := "mysql_native_password"
